@@ -325,6 +325,9 @@ def run(replay=None):
     A.write_tables(wd)
     known = known_devs()
     devs = {DEV} if known else set()
+    # emission runs excuse every feature through which the NAMED deviation is reached, so that TLC always enumerates the
+    # whole space; what is excused for the design-level verdict are only the open findings (extra run below)
+    excuse = set(DEV_TAGS) if devs else set()
     # ---- 1. exhaustive enumeration: design-level check and scenario shapes
     if t == "quick":
         enum_cfgs = [("full", ["a", "b"], 3, 3), ("styles", ["a", "b"], 4, 3)]
@@ -338,7 +341,7 @@ def run(replay=None):
     tlc_notes = []
     for k, (notation, vs, maxn, maxd) in enumerate(enum_cfgs):
         mc_module(wd, f"FormulaMC{k}", vs)
-        r = C.run_tlc(wd, f"FormulaMC{k}", cfg(vs, [2], maxn, maxd, notation, True, "enum", devs, known))
+        r = C.run_tlc(wd, f"FormulaMC{k}", cfg(vs, [2], maxn, maxd, notation, True, "enum", devs, excuse))
         states += r.distinct; trans += r.generated
         if r.violated:
             tlc_notes.append(f"TLC enum/{notation}: {r.violated}: " + r.cex[:600])
@@ -349,6 +352,12 @@ def run(replay=None):
                 shape_seen.add(key); shapes.append(rec["toks"])
     # ---- sensitivity of the design-level check: with the deviation switched on and no finding excused, TLC must
     #      produce a counterexample (thorough only; it is a check of the spec, not of the code)
+    if devs and known != DEV_TAGS:
+        mc_module(wd, "FormulaMCd", ["a", "b"])
+        rd = C.run_tlc(wd, "FormulaMCd", cfg(["a", "b"], [2], 3, 2, "full", False, "enum", devs, known), want_records=False)
+        states += rd.distinct; trans += rd.generated
+        if rd.violated:
+            tlc_notes.append("TLC (open findings only): the machine spec deviates from the ideal: " + rd.cex[:300])
     sens = None
     if t == "thorough":
         mc_module(wd, "FormulaMCs", ["a", "b"])
@@ -370,7 +379,7 @@ def run(replay=None):
         fin = os.path.join(wd, f"items{c0}.json")
         with open(fin, "w") as f:
             json.dump(items[c0:c0 + CH], f)
-        r = C.run_tlc(wd, "FormulaMCf", cfg(VARS4, MULTS_FILE, 0, 0, "full", True, "file", devs, known),
+        r = C.run_tlc(wd, "FormulaMCf", cfg(VARS4, MULTS_FILE, 0, 0, "full", True, "file", devs, excuse),
                       env={"FORMULA_IN": fin})
         states += r.distinct; trans += r.generated
         if r.violated:
